@@ -80,7 +80,7 @@ def view_cases(draw):
 
 def _new_label_like(x, v):
     if isinstance(x, tuple):
-        return ('n%d' % v, 0)
+        return (_new_label_like(x[0], v), 0)
     if isinstance(x, str):
         return 'n%d' % v
     if isinstance(x, np.datetime64):
